@@ -4,8 +4,8 @@
 tag=$1; shift
 for P in "$@"; do
   d=/tmp/mut/$P/_mutants
-  for n in 1 2 3; do
-    [ -f $d/m$n.diff ] || { echo "$P m$n: NO-DIFF"; continue; }
+  for n in 1 2 3 4; do
+    [ -f $d/m$n.diff ] || continue
     v=$(/verif/tools/verifymut.sh $d $n 2>&1 | tail -1)
     echo "$P $v"
     case "$v" in *demo-without=pass*suite-with=pass*fails-as-required*) /verif/tools/trymut.sh $P-${tag}m$n $d/m$n.diff $P 2>&1 | cut -c1-400;; esac
